@@ -44,6 +44,18 @@ fn level_overlap_search(nt: usize) {
 }
 
 #[kani::proof]
+#[kani::unwind(6)]
+fn c06_level_insert_keeps_search_order_t2() {
+	level_insert_keeps_search_order(2);
+}
+
+#[kani::proof]
+#[kani::unwind(6)]
+fn c06_level_insert_keeps_search_order_t3() {
+	level_insert_keeps_search_order(3);
+}
+
+#[kani::proof]
 #[kani::unwind(5)]
 fn c06_level_overlap_search_never_skips_a_table_t3() {
 	level_overlap_search(3);
@@ -116,20 +128,31 @@ fn c07_levels_count_byte_is_unsigned() {
 	core::mem::forget(d);
 }
 
+/// a table whose smallest key carries the sequence number `seq` (as the first entry of a real table does)
+fn mk_table_seq(id: u64, key: &[u8], seq: u64) -> Arc<Table> {
+	let t = mk_table(id, Some(key), Some(key), (Some(1), Some(seq)));
+	let mut t = t;
+	if let Some(m) = Arc::get_mut(&mut t) {
+		m.meta.smallest_point = Some(crate::InternalKey::new(key.to_vec(), seq, crate::InternalKeyKind::Set, 0));
+	}
+	t
+}
+
 /// C01/C06: the search order inside a level.  Level 0 is searched newest first: `insert` keeps the
 /// tables ordered by their LARGEST sequence number, descending, whatever the insertion order;
 /// levels >= 1 are binary-searched by key: `insert_sorted_by_key` keeps them ordered by smallest key.
-#[kani::proof]
-#[kani::unwind(6)]
-fn c06_level_insert_keeps_search_order() {
+fn level_insert_keeps_search_order(nt: usize) {
 	let hi: [u64; 3] = kani::any();
-	let k: [u8; 3] = kani::any();
+	// smallest keys of one or two bytes (a key and the same key followed by 0x00 included)
+	let k: [[u8; 2]; 3] = kani::any();
+	let kl: [usize; 3] = kani::any();
 	let by_key: bool = kani::any();
 	let mut level = Level { tables: Vec::with_capacity(4) };
 	let mut i = 0;
-	while i < 3 {
+	while i < nt {
 		kani::assume(hi[i] >= 1 && hi[i] < (1 << 56));
-		let t = mk_table(i as u64 + 1, Some(&k[i..i + 1]), Some(&k[i..i + 1]), (Some(1), Some(hi[i])));
+		kani::assume(kl[i] >= 1 && kl[i] <= 2);
+		let t = mk_table_seq(i as u64 + 1, &k[i][..kl[i]], hi[i]);
 		if by_key {
 			level.insert_sorted_by_key(t);
 		} else {
@@ -137,9 +160,9 @@ fn c06_level_insert_keeps_search_order() {
 		}
 		i += 1;
 	}
-	assert!(level.tables.len() == 3, "a table was lost on insertion");
+	assert!(level.tables.len() == nt, "a table was lost on insertion");
 	let mut j = 1;
-	while j < 3 {
+	while j < nt {
 		let (a, b) = (&level.tables[j - 1], &level.tables[j]);
 		if by_key {
 			let (ka, kb) = (a.meta.smallest_point.as_ref().unwrap(), b.meta.smallest_point.as_ref().unwrap());
@@ -149,7 +172,8 @@ fn c06_level_insert_keeps_search_order() {
 		}
 		j += 1;
 	}
-	kani::cover!(!by_key && hi[0] < hi[1] && hi[1] < hi[2], "L0: tables inserted oldest first");
-	kani::cover!(by_key && k[0] > k[1] && k[1] > k[2], "L1: tables inserted in descending key order");
+	kani::cover!(!by_key && hi[0] < hi[1], "L0: tables inserted oldest first");
+	kani::cover!(by_key && k[0][0] > k[1][0], "L1: tables inserted in descending key order");
+	kani::cover!(by_key && kl[0] == 1 && kl[1] == 2 && k[1][0] == k[0][0] && k[1][1] == 0, "a key and the same key followed by 0x00");
 	core::mem::forget(level);
 }
